@@ -60,3 +60,12 @@ Example indent_join_example :
   indent eq_prefix (join_nl ["# Y[t] = X[t]"; "self._Y[t] = (self._X[t] +"; ""; "   "; "    1)"]) =
   join_nl ["        # Y[t] = X[t]"; "        self._Y[t] = (self._X[t] +"; ""; "   "; "            1)"].
 Proof. rewrite indent_join_nl by reflexivity. reflexivity. Qed.
+
+(* the block is the very end of the class text, whatever it contains: text = (a head that does not depend on the block) ++ block *)
+Theorem text_ends_with_block h c eqs :
+  fill h c eqs = (seg h 0 ++ py_repr_names (Classify.c_endogenous c) ++ seg h 1 ++ py_repr_names (Classify.c_exogenous c) ++ seg h 2 ++
+                  py_repr_names (Classify.c_parameters c) ++ seg h 3 ++ py_repr_names (Classify.c_errors c) ++ seg h 4 ++
+                  ParseEq.string_of_Z (Classify.c_lags c) ++ seg h 5 ++ ParseEq.string_of_Z (Classify.c_leads c) ++ seg h 6) ++ eqs.
+Proof.
+  unfold fill. assert (E : seg h 7 = "") by (destruct h; vm_compute; reflexivity). rewrite E, sapp_nil_r, !sapp_assoc. reflexivity.
+Qed.
